@@ -44,6 +44,7 @@ type Sim struct {
 	overrun  bool
 	yieldOn  map[string]bool
 	yieldAll bool
+	autoP    float64
 	yieldP   float64
 	chNames  map[[32]byte]string
 	prNames  map[[32]byte]string
@@ -205,21 +206,36 @@ func (s *Sim) Yield(site string) {
 	if !s.yieldAll && !s.yieldOn[site] {
 		// sites inserted automatically into a scratch copy (cmd/yieldinject) are
 		// not known in advance: their mask bit is derived on first use
-		if !strings.HasPrefix(site, "auto:") || s.yieldP <= 0 {
+		if !strings.HasPrefix(site, "auto:") || s.autoP <= 0 {
 			return
 		}
-		if float64(kernel.Derive(s.Sc.Seed, "buggify", site)>>11)/(1<<53) >= s.yieldP {
+		if float64(kernel.Derive(s.Sc.Seed, "buggify", site)>>11)/(1<<53) >= s.autoP {
 			return
 		}
 	}
+	if heldNow() != 0 {
+		// rule R3: somebody holds a standard-library mutex (counted by the
+		// instrumentation of the scratch copy, tools/lockinject); parking now
+		// could leave a goroutine blocked on it, which is not a durable block
+		s.Count("probe.yield_suppressed", 1)
+		return
+	}
 	s.Count("probe.yield."+site, 1)
-	s.Sleep("yield:"+site, 0, 40*time.Microsecond)
+	// mostly a short hold; one hit in eight models a goroutine that is
+	// descheduled for as long as a network round trip or more
+	max := 40 * time.Microsecond
+	if s.Sc.Cfg("long_yields", 0) == 1 && s.Chance("yieldlong:"+site, 0.125) {
+		max = 3 * time.Millisecond
+		s.Count("probe.yield_long", 1)
+	}
+	s.Sleep("yield:"+site, 0, max)
 }
 
 // EnableYields sets the buggify mask: each listed site is enabled with
 // probability p (keyed on the site name).
 func (s *Sim) EnableYields(sites []string, p float64) {
 	s.yieldP = p
+	s.autoP = float64(s.Sc.Cfg("auto_yield_pct", int64(p*100))) / 100
 	s.yieldOn = map[string]bool{}
 	for _, site := range sites {
 		if float64(kernel.Derive(s.Sc.Seed, "buggify", site)>>11)/(1<<53) < p {
